@@ -27,7 +27,7 @@ pub struct Stream;
 
 pub fn gen_items(rng: &mut Rng, n: usize, elem: ElemT) -> Vec<u64> {
     let mut set = BTreeSet::new();
-    let shape = rng.below(4);
+    let shape = rng.below(5);
     let base = match shape {
         0 => 0u64,
         1 => rng.below(1 << 20),
@@ -38,7 +38,11 @@ pub fn gen_items(rng: &mut Rng, n: usize, elem: ElemT) -> Vec<u64> {
         let v = match shape {
             0 | 1 => base + k,                        // dense range
             2 => base.wrapping_add(k.wrapping_mul(rng.range(1, 1000))), // strided
-            _ => rng.u64(),                           // scattered
+            3 => rng.u64(),                           // scattered
+            _ => {
+                // mixed magnitudes: some below 2^32, some far above (matters for identity-like hashers)
+                if rng.chance(0.5) { rng.below(1 << 20) } else { rng.u64() | (1 << 40) }
+            }
         };
         k += 1;
         let v = match elem {
@@ -46,6 +50,23 @@ pub fn gen_items(rng: &mut Rng, n: usize, elem: ElemT) -> Vec<u64> {
             _ => v,
         };
         set.insert(v);
+    }
+    // extreme identities (with a hasher that does not scatter these are extreme hashes as well)
+    if n >= 2 && rng.chance(0.15) {
+        let ext = [0u64, 1, u64::MAX, 1 << 63, 0xffff_ffff, 1 << 32, 1 << 56];
+        let k = rng.urange(1, 3);
+        for _ in 0..k {
+            let e = *rng.pick(&ext);
+            let e = if elem == ElemT::U32 { e & 0xffff_ffff } else { e };
+            if set.len() > 1 {
+                let first = *set.iter().next().unwrap();
+                set.remove(&first);
+            }
+            set.insert(e);
+        }
+        while set.len() < n {
+            set.insert(rng.u64() >> if elem == ElemT::U32 { 32 } else { 0 });
+        }
     }
     set.into_iter().collect()
 }
